@@ -57,6 +57,7 @@ package store
 //@   end
 
 //@ func ResumableVersion
+//@   call[car.ReadVersion#0] assert sniffs_the_given_stream_with_the_library_defaults [C12]: ref(arg0) == ref(reader) && len(arg1) == 0
 //@   let version, verr := call[car.ReadVersion#0]
 //@   ensures accept_only_matching [C12]: err == nil ==> verr == nil && ((version == 1 && writeAsV1) || (version == 2 && !writeAsV1))
 //@   ensures reject_mismatch [C12]: verr == nil && !((version == 1 && writeAsV1) || (version == 2 && !writeAsV1)) ==> err != nil
